@@ -1,6 +1,6 @@
 use std::io::{self, Write};
 
-use super::{write_delimiter, write_other_fields, write_value_field};
+use super::{write_delimiter, write_idx_field, write_other_fields, write_value_field};
 use crate::header::record::value::{
     Map,
     map::{Contig, contig::tag},
@@ -26,6 +26,7 @@ where
     }
 
     write_other_fields(writer, contig.other_fields())?;
+    write_idx_field(writer, contig.idx())?;
 
     Ok(())
 }
